@@ -131,8 +131,16 @@ package parser
 //@   property C16 C15
 //@   requires j != nil && wf(j.stateStack)
 
+// jsonTokenValue: the text node of a scalar (C16): a string is its own text, a number the shortest numeral that reads
+// back to the same double (strconv's 'g' format with precision -1, assumed), a boolean `true`/`false`; the adapter
+// renders every other token as `null`.
 //@ func jsonTokenValue(tok) (r)
 //@   property C16 C15
+//@   uses fmtg
+//@   ensures holdsStr(tok) && !holdsJsonNumber(tok) ==> r == unboxStr(tok)          @a-string-is-its-own-text
+//@   ensures holdsF64(tok) ==> r == fmtg(unboxF64(tok))                            @a-number-is-its-shortest-numeral
+//@   ensures holdsBool(tok) ==> r == (if unboxBool(tok) then "true" else "false")  @a-boolean-is-true-or-false
+//@   ensures tok == nil ==> r == "null"                                            @null
 
 //@ func jsonParser.Pull(j) (n, isEnd, err)
 //@   property C16 C15
